@@ -633,3 +633,64 @@ Qed.
 (** the big step is a run of the small-step system *)
 Lemma big_step_is_run s a : fst (big_step s a) = fst (hrun (big_acts s a) s).
 Proof. unfold big_step. destruct (hrun (big_acts s a) s). reflexivity. Qed.
+
+(** * The same for every reachable state, i.e. after every action list from the empty system *)
+Section Reach.
+Variable s : sys.
+Hypothesis Hr : reach s.
+Let HI : Inv s := Inv_reach s Hr.
+
+Lemma r_confined a h x : is_access a h -> snd (step s a) = RVal x ->
+  exists hd cl, live_handle s h = Some hd /\ getN (cells s) x = Some cl /\
+    c_owner cl = h_ep hd /\ c_tag cl = h_tag hd /\ c_taken cl = false /\
+    (forall v0, h_org hd = Some v0 -> v0 = x).
+Proof. apply confined; exact HI. Qed.
+
+Lemma r_foreign_unknown a h hd v0 cl0 :
+  is_access a h -> live_handle s h = Some hd ->
+  h_org hd = Some v0 -> getN (cells s) v0 = Some cl0 -> c_owner cl0 <> h_ep hd ->
+  snd (step s a) = RUnknown.
+Proof. apply foreign_unknown; exact HI. Qed.
+
+Lemma r_wrong_type_error a h hd v0 cl0 :
+  is_access a h -> live_handle s h = Some hd ->
+  h_org hd = Some v0 -> getN (cells s) v0 = Some cl0 -> c_tag cl0 <> h_tag hd ->
+  snd (step s a) = RUnknown \/ snd (step s a) = RMismatch.
+Proof. apply wrong_type_error; exact HI. Qed.
+
+Lemma r_taken_forever acts x cl :
+  getN (cells s) x = Some cl -> c_taken cl = true -> ~ In (RVal x) (snd (hrun acts s)).
+Proof. apply taken_forever; exact HI. Qed.
+
+Lemma r_release_enabled en :
+  In en (storage s) ->
+  (holders s (s_id en) = 0 \/ prov_of s (s_cell en) = PDropped) ->
+  exists s', step s (ARelease (s_id en)) = (s', RUnit) /\ ~ In en (storage s') /\ incl (storage s') (storage s).
+Proof. apply release_enabled; exact HI. Qed.
+
+Lemma r_quiescent_released en :
+  quiescent s -> In en (storage s) ->
+  holders s (s_id en) <> 0 /\ prov_of s (s_cell en) <> PDropped.
+Proof. apply quiescent_released; exact HI. Qed.
+
+Lemma r_value_released v :
+  quiescent s ->
+  (forall hd, In hd (handles s) -> h_live hd = true -> st_cell (h_st hd) <> Some v) ->
+  (prov_of s v = PDropped \/
+   (forall hd, In hd (handles s) -> h_live hd = true -> descends v (h_org hd) = false) /\
+   (forall m, In m (flight s) -> descends v (m_org m) = false)) ->
+  value_alive s v = false.
+Proof. apply value_released; exact HI. Qed.
+
+Lemma r_big_step a : quiescent (fst (big_step s a)) /\ reach (fst (big_step s a)).
+Proof.
+  split; [apply big_step_quiescent; exact HI|]. destruct Hr as [acts <-]. rewrite big_step_is_run.
+  exists (acts ++ big_acts (fst (hrun acts init)) a).
+  generalize (big_acts (fst (hrun acts init)) a). intros l.
+  assert (Happ : forall a1 a2 s0, fst (hrun (a1 ++ a2) s0) = fst (hrun a2 (fst (hrun a1 s0)))).
+  { induction a1 as [|x a1 IH]; intros a2 s0; cbn [app hrun]; [reflexivity|].
+    destruct (step s0 x) as [s1 o]. specialize (IH a2 s1). destruct (hrun (a1 ++ a2) s1) as [s2 os].
+    destruct (hrun a1 s1) as [s3 os3]. cbn [fst] in *. exact IH. }
+  apply Happ.
+Qed.
+End Reach.
